@@ -2,6 +2,7 @@
 each one used has a stated meaning here.  Dispatch is on the identity of the real callable object."""
 from __future__ import annotations
 
+import ast
 import builtins
 import enum
 import math
@@ -553,7 +554,8 @@ def _npminimum(ex, st, args, kwargs, node):
 
 
 def seq_sum(ex, st, sq: Seq):
-    from .sigma import make_sum
+    from .sigma import make_sum, name_seq
+    sq = name_seq(ex, sq)
     if sq.items is not None:
         acc = 0
         for x in sq.items:
@@ -625,7 +627,7 @@ def _empty(ex, st, args, kwargs, node):
         return st.new_cell(Seq("nd", 0, items=[], et="real"))
     # uninitialised memory: arbitrary contents
     f = z3.Function(fresh_name("empty"), z3.IntSort(), z3.RealSort())
-    return st.new_cell(Seq("nd", n, fn=lambda j: f(to_int(j)), et="real"))
+    return st.new_cell(Seq("nd", n, fn=lambda j: f(to_int(j)), et="real", uf=f))
 
 
 def _const_seq(ex, st, n, val, kind):
@@ -841,7 +843,8 @@ def seq_ghost_id(ex, st, sq: Seq):
 
 def npv_ghost(ex, st, rate, sq: Seq):
     """npf.npv(rate, values) = sum_t values[t] / (1+rate)^t  -- as Sigma-term over pow (A3)"""
-    from .sigma import make_sum
+    from .sigma import make_sum, name_seq
+    sq = name_seq(ex, sq)
     r = _as_float(rate)
     base = ex.arith("+", 1.0, r)
     if sq.items is not None:
@@ -855,6 +858,8 @@ def npv_ghost(ex, st, rate, sq: Seq):
 def irr_ghost(ex, st, sq: Seq):
     """npf.irr(values): NaN, or a rate r > -1 with npv(r, values) == 0 (A3).  One ghost pair per sequence value;
     sequences that are pointwise equal get equal results (extensionality instance per pair)."""
+    from .sigma import name_seq
+    sq = name_seq(ex, sq)
     reg = ex.ctx.__dict__.setdefault("irr_calls", [])
     for (r0, nan0, other) in reg:
         if other is sq:
@@ -970,6 +975,9 @@ def seq_method(ex, recv, name, args, kwargs, st, node):
         st.cells[recv.cid] = new
         if st.log is not None:
             st.log.len_changes.add(recv.cid)
+            if node is not None and isinstance(getattr(node, "func", None), ast.Attribute) \
+                    and len(st.frames) == getattr(st.log, "depth", -1):
+                st.log.write_texts.append(ast.unparse(node.func.value))
 
     if name == "copy":
         return st.new_cell(Seq(sq.kind, sq.n, items=sq.items, fn=sq.fn, et=sq.et))
